@@ -79,7 +79,7 @@ def draw_config(rng, wl, tier):
         "faults": [], "dur_scale": 1.0, "fail": [], "shared_memory": rng.random() < 0.12,
         "callbacks": rng.choice([0, 1]), "extra_kwargs": None,
         # history fault: an earlier fit of the same topology with other flags/limits in the same process
-        "decoy": rng.choice(["free", "other_fixed"]) if rng.random() < 0.25 else None,
+        "decoy": rng.choice(["free", "other_fixed"]) if rng.random() < 0.1 else None,
     }
     swarm = rng.random()
     if swarm > 0.3:
@@ -228,12 +228,36 @@ def _decoy(wl, kind):
     return w
 
 
+def _evaluate_after_decoy(args):
+    wl, cfg, dec, ctx = args
+    out, viols = _evaluate(wl, cfg, dec, ctx, after_decoy=True)
+    out.result = None
+    return out, viols, dec.log
+
+
 def evaluate(wl, cfg, dec, ctx):
+    if cfg.get("decoy"):
+        # A run with a history fault executes in its own forked process (what the decoy leaves behind
+        # must not reach later runs of this job) and with an empty task cache (results cached by earlier,
+        # clean runs must not hide what the decoy did to this one).
+        from simkit import batch
+
+        out, viols, log = batch._isolated(_evaluate_after_decoy, (wl, cfg, dec, ctx), 900.0, arm_watchdog=False)
+        dec.log = log
+        return out, viols
+    return _evaluate(wl, cfg, dec, ctx)
+
+
+def _evaluate(wl, cfg, dec, ctx, after_decoy=False):
+    from simkit import simpool
+
     fail = set(cfg.get("fail") or ())
     T = (cfg.get("extra_kwargs") or {}).get("timeout", 0)
-    if cfg.get("decoy"):
+    cache = ctx.cache
+    if after_decoy:
         run_entry(_decoy(wl, cfg["decoy"]), {"num_procs": 1, "callbacks": 0, "np_seed": 99})
-    out = run_entry(wl, cfg, dec, ctx.cache, keep_result=True)
+        cache = simpool.TaskCache()
+    out = run_entry(wl, cfg, dec, cache, keep_result=True)
     if out.status == "skipped":
         return out, []
     viols = []
@@ -260,8 +284,10 @@ def evaluate(wl, cfg, dec, ctx):
             add(clause, detail)
         for v in out.identity_violations or []:
             add("identities", v)
-    # winner model
-    if not may_timeout:
+    # winner model (after a decoy only when every single-combination reference was computed earlier, in a
+    # clean process state; otherwise the references themselves would be computed under the decoy's influence)
+    have_refs = all(("single", m_, w_) in ctx.extra for m_, w_ in wl["combos"] if f"{m_}/_{w_}_weight" not in fail)
+    if not may_timeout and (not after_decoy or have_refs):
         kind, best, tie = winner_model(wl, ctx, fail)
         if tie:
             out.probes["exact_tie_in_sort_key"] = 1
